@@ -29,7 +29,7 @@ def run(ctx):
             errs = '\n'.join(re.findall(r'^error.*(?:\n.*){0,6}', out, re.M)[:6])
 
             def reproduce(name=name, cmd=cmd, out=out):
-                d = os.path.join(core.VERIF, 'replays', 'C20')
+                d = os.path.join(core.REPLAY_DIR, 'C20')
                 os.makedirs(d, exist_ok=True)
                 path = os.path.join(d, 'build_%s.txt' % re.sub(r'\W', '_', name))
                 with open(path, 'w') as fh:
